@@ -60,6 +60,8 @@ RunStage ==
 Next == AddFault \/ Start \/ RunStage
 Spec == Init /\ [][Next]_vars
 
+\* every run of main() ends: with weak fairness on the pipeline steps one of the outcomes is eventually reached
+LiveSpec == Spec /\ WF_vars(Next)
 Ended == outcome # "running"
 \* exactly one of the legal endings (or a recorded defect), never "nothing"
 ExactlyOneOutcome == Ended => outcome \in {"usage", "diag", "report", "crash", "nonfinite"}
@@ -67,6 +69,7 @@ ExactlyOneOutcome == Ended => outcome \in {"usage", "diag", "report", "crash", "
 FailSafe == Ended => outcome \notin {"crash", "nonfinite"}
 \* stages are never revisited and the run stops at the first firing stage
 StopsAtFirst == Ended => \A s \in faults : (SiteKind[s] # "report" /\ fired # 0) => SiteStage[fired] <= SiteStage[s]
+Termination == <>(outcome # "running")
 TypeOK == stage \in 0..NStages /\ fired \in 0..NSites
 \* every option is validated before the loop; inside the loop only setting the frequency and solving can end in a
 \* diagnostic (singular matrix, no input power), and the report is printed after the loop: a diagnostic (or usage
